@@ -155,7 +155,7 @@ def baseline(prop, tier="quick", snapshot=None):
             bad = [r for r in ctx.results if r.status != HOLDS]
         except Exception:
             bad = []
-        _BASELINE[(prop, snapshot)] = ({r.key() for r in bad}, {(r.rule, r.func, r.msg[:50]) for r in bad})
+        _BASELINE[(prop, snapshot)] = ({r.key() for r in bad}, {(r.rule, r.func, r.msg[:50]) for r in bad} | {(r.rule, None, r.construct[:80]) for r in bad})
     return _BASELINE[(prop, snapshot)]
 
 
@@ -163,7 +163,8 @@ def added(prop, results, path=None):
     """the results a stored diff adds to what its bare snapshot already gives"""
     exact, loose = baseline(prop, snapshot=snapshot_of(path) if path else None)
     # the same clause on the same function with the same diagnosis (the construct quoted may be spelt differently after a refactor)
-    return [r for r in results if r.key() not in exact and (r.rule, r.func, r.msg[:50]) not in loose]
+    # ... or the same clause with the same diagnosis in a function the diff renamed or split off
+    return [r for r in results if r.key() not in exact and (r.rule, r.func, r.msg[:50]) not in loose and (r.rule, None, r.construct[:80]) not in loose]
 
 
 def seeded_sources(seed_dir, root="/repo"):
